@@ -49,9 +49,9 @@ func init() {
 			"'rejected' = Prove returns an error or no value; 'yields a value' = non-nil value with nil error"},
 		TimeoutSec: func(t string) int {
 			if t == ev.Thorough {
-				return 3000
+				return 7200
 			}
-			return 400
+			return 600
 		},
 		Run: run,
 	})
